@@ -1,6 +1,7 @@
 package props
 
 import (
+	"bytes"
 	"context"
 	"encoding/binary"
 	"fmt"
@@ -136,6 +137,11 @@ type c14Obs struct {
 // c14Serve sends the chunks as CopyData messages (then CopyDone) to a handler that
 // reads rows exactly like examples/copy does.
 func c14Serve(table []string, chunks [][]byte) (c14Obs, string) {
+	return c14ServeWith(table, chunks, pgproto.CopyDone(), 0)
+}
+
+// c14ServeWith: like c14Serve with a chosen terminating message and message limit (0 = harness default).
+func c14ServeWith(table []string, chunks [][]byte, terminator []byte, limit int) (c14Obs, string) {
 	var o c14Obs
 	cols := make(wire.Columns, len(table))
 	for i, tn := range table {
@@ -171,7 +177,11 @@ func c14Serve(table []string, chunks [][]byte) (c14Obs, string) {
 			return w.Complete(fmt.Sprintf("COPY %d", len(o.rows)))
 		}, wire.WithColumns(cols))), nil
 	}
-	one, err := harness.StartOne(parse)
+	var sopts []wire.OptionFn
+	if limit > 0 {
+		sopts = append(sopts, wire.MessageBufferSize(limit))
+	}
+	one, err := harness.StartOne(parse, sopts...)
 	if err != nil {
 		return o, err.Error()
 	}
@@ -185,7 +195,7 @@ func c14Serve(table []string, chunks [][]byte) (c14Obs, string) {
 	for _, c := range chunks {
 		seg = append(seg, pgproto.CopyData(c)...)
 	}
-	seg = append(seg, pgproto.CopyDone()...)
+	seg = append(seg, terminator...)
 	out, _ = one.Step(seg)
 	o.reply = harness.Kinds(out)
 	out, _ = one.Step(pgproto.Query("again"))
@@ -244,7 +254,81 @@ func c14Cuts(tier string) int {
 	return 2
 }
 
+// c14Extra: (a) the client aborts AFTER the end-of-data trailer; (b) a value longer than the
+// connection's message limit, legally split over several CopyData messages.
+func c14Extra(tier string, emit explore.Emit) {
+	for _, table := range [][]string{{"int4"}, {"text", "bool", "int4"}} {
+		for rows := 0; rows <= 2; rows++ {
+			s := c14Stream{Table: table, Rows: rows, Nulls: make([]bool, rows*len(table)), Trailer: true}
+			stream, _, want := s.encode()
+			for _, ab := range []struct {
+				name string
+				msg  []byte
+			}{{"CopyFail", pgproto.CopyFail("client changed its mind")}, {"Query", pgproto.Query("again")}, {"unknown message", pgproto.Msg('z', nil)}} {
+				for _, cut := range []int{0, len(stream) - 2, len(stream) / 2} {
+					ab, cut := ab, cut
+					emit(explore.Case{Family: "abort-after-trailer", Size: rows,
+						Desc: func() any { return map[string]any{"stream": s.String(), "then": ab.name + " instead of CopyDone", "split_at": cut} },
+						Run: func() explore.Result {
+							var res explore.Result
+							res.Outcome = "corruption-rejected"
+							res.Key = fmt.Sprint("abort-after-trailer", s.String(), ab.name, cut)
+							chunks := [][]byte{stream}
+							if cut > 0 {
+								chunks = splitAt(stream, []int{cut})
+							}
+							o, eng := c14ServeWith(s.Table, chunks, ab.msg, 0)
+							if eng != "" {
+								res.Engine = eng
+								return res
+							}
+							res.Trans = []string{fmt.Sprintf("rows=%d|trailer then %s|aborted", s.Rows, ab.name)}
+							if len(o.rows) > len(want) || !sameStrings(o.rows, want[:len(o.rows)]) {
+								res.Fail("fabricated-row", fmt.Sprintf("%s then %s: rows %v", s, ab.name, o.rows))
+							}
+							if !strings.HasPrefix(o.final, "error") {
+								res.Fail("abort-after-trailer-lost", fmt.Sprintf("%s: the client sent the trailer and then %s instead of CopyDone; the reader ended with %q and the server answered %q — the abort must surface as a non-EOF error and be reported", s, ab.name, o.final, o.reply))
+							} else if !strings.HasPrefix(o.reply, "EZ") {
+								res.Fail("copy-cycle", fmt.Sprintf("%s then %s: aborted COPY answered %q, expected ErrorResponse + ReadyForQuery", s, ab.name, o.reply))
+							}
+							return res
+						}})
+				}
+			}
+		}
+	}
+	// a 200 / 3000-byte text value under a message limit of 64 / 1024 bytes, split into chunks below the limit
+	for _, cfg := range []struct{ limit, size, chunk int }{{64, 200, 50}, {64, 65, 40}, {1024, 3000, 700}, {1024, 1025, 1000}} {
+		cfg := cfg
+		val := bytes.Repeat([]byte{'v'}, cfg.size)
+		stream := pgproto.Cat(pgproto.BinaryCopyHeader(), pgproto.BinaryCopyTuple([][]byte{{0, 0, 0, 9}, val}), pgproto.BinaryCopyTrailer())
+		var cuts []int
+		for c := cfg.chunk; c < len(stream); c += cfg.chunk {
+			cuts = append(cuts, c)
+		}
+		emit(explore.Case{Family: "value-larger-than-limit", Size: 1,
+			Desc: func() any { return map[string]any{"message_limit": cfg.limit, "text_value_bytes": cfg.size, "copydata_chunk": cfg.chunk} },
+			Run: func() explore.Result {
+				var res explore.Result
+				res.Outcome = "split"
+				res.Key = fmt.Sprint("big-value", cfg)
+				o, eng := c14ServeWith([]string{"int4", "text"}, splitAt(stream, cuts), pgproto.CopyDone(), cfg.limit)
+				if eng != "" {
+					res.Engine = eng
+					return res
+				}
+				want := []string{fmt.Sprintf("[9 %q]", val)}
+				res.Trans = []string{fmt.Sprintf("limit=%d|value %d bytes in %d-byte chunks|decoded", cfg.limit, cfg.size, cfg.chunk)}
+				if !sameStrings(o.rows, want) || o.final != "eof" {
+					res.Fail("well-formed-stream-rejected", fmt.Sprintf("message limit %d, a %d-byte value sent in CopyData messages of %d bytes (each below the limit): reader ended with %q after %d rows", cfg.limit, cfg.size, cfg.chunk, o.final, len(o.rows)))
+				}
+				return res
+			}})
+	}
+}
+
 func c14Enumerate(tier string, emit explore.Emit) {
+	c14Extra(tier, emit)
 	for _, table := range c14Tables(tier) {
 		nc := len(table)
 		for rows := 0; rows <= 2; rows++ {
